@@ -9,6 +9,7 @@ import (
 	"fmt"
 	"go/constant"
 	"go/token"
+	"go/types"
 	"os"
 	"regexp"
 	"sort"
@@ -1011,6 +1012,85 @@ func checkC12(w *World, r *Report) {
 		r.Undecided("O-5", "ledger", "the ledger overlay analysis (C18 L-1) produced no obligation")
 	}
 	r.Floor("O-5", 2, "ledger overlay semantics")
+	o6(w, r)
+	r.Floor("O-6", 1, "ledger calls keyed by a field of the item")
+}
+
+// o6: a record is addressed by one key. Wherever a ledger call names an item by
+// `ToLedgerKey(item.F)` instead of `item.Key()`, the item type's Key() must be
+// exactly that derivation on every return — otherwise the record is written under
+// one key and looked up / deleted under another (a refunded stake that is never
+// removed is refunded again in every later block).
+func o6(w *World, r *Report) {
+	reKey := regexp.MustCompile(`^ledger\.ToLedgerKey\((.+)\.(\w+)\)$`)
+	keyOf := map[*types.Named]string{}
+	keyExpr := func(n *types.Named) string {
+		if s, ok := keyOf[n]; ok {
+			return s
+		}
+		out := "?no Key method"
+		if km := methodOfNamed(w, n, "Key"); km != nil && km.Blocks != nil {
+			set := map[string]bool{}
+			for _, b := range km.Blocks {
+				if rt, isR := lastInstr(b).(*ssa.Return); isR && b != km.Recover && len(rt.Results) == 1 {
+					set[w.Canon(retResult(rt, 0))] = true
+				}
+			}
+			out = strings.Join(sortedKeys(set), " | ")
+		}
+		keyOf[n] = out
+		return out
+	}
+	seen := map[string]bool{}
+	for _, fn := range w.nodeFuncs() {
+		if inLedgerPkg(w, fn) {
+			continue
+		}
+		for _, c := range CallsIn(fn) {
+			arms := w.ledgerArmsF(c)
+			if len(arms) == 0 {
+				continue
+			}
+			karg := w.ledgerItemArg(c)
+			if karg == nil {
+				continue
+			}
+			m := reKey.FindStringSubmatch(w.Canon(karg))
+			if m == nil {
+				continue
+			}
+			// the value whose field is the key: a ledger item?
+			var base ssa.Value
+			if call, isCall := stripConv(karg).(*ssa.Call); isCall && len(call.Common().Args) == 1 {
+				if ld, isLd := stripConv(call.Common().Args[0]).(*ssa.UnOp); isLd && ld.Op == token.MUL {
+					if fa, isFA := ld.X.(*ssa.FieldAddr); isFA {
+						base = fa.X
+					}
+				}
+			}
+			if base == nil {
+				continue
+			}
+			n, _ := types.Unalias(deref(base.Type())).(*types.Named)
+			if n == nil || methodOfNamed(w, n, "Key") == nil || methodOfNamed(w, n, "Decode") == nil {
+				continue
+			}
+			// the ledger must hold items of that type (the key of a stake used on the delegatee
+			// ledger is a reference, not the record's own key)
+			lt := typeStr(ledgerRoot(arms[0].Recv).Type())
+			if !strings.Contains(lt, n.Obj().Name()) {
+				continue
+			}
+			key := "key-agreement:" + w.FName(fn) + ":" + n.Obj().Name() + "." + m[2]
+			if seen[key] {
+				continue
+			}
+			seen[key] = true
+			want := "ledger.ToLedgerKey(recv." + m[2] + ")"
+			got := keyExpr(n)
+			r.Check(got == want, "O-6", key, "the record is addressed by "+n.Obj().Name()+"."+m[2]+", which is what "+n.Obj().Name()+".Key() returns on every path", n.Obj().Name()+".Key() is not `"+want+"` on every return ("+got+"): the record is stored under its Key() but addressed here by "+w.Canon(karg), site(w, c))
+		}
+	}
 }
 
 func o1(w *World, r *Report) {
@@ -1407,6 +1487,26 @@ func checkC14(w *World, r *Report) {
 	j1(w, r)
 	j2(w, r)
 	j3(w, r)
+	// J-4: "exactly the offender" also holds for what consensus is told: the
+	// candidate list of a block is rebuilt from the committed ledger into a list of
+	// its own (not into the storage the previous selection still refers to), so the
+	// removal that follows a jailing names the jailed validator (C10 U-1)
+	{
+		tmp := NewReport(r.Prop, r.Tier)
+		u1(w, tmp)
+		n := 0
+		for _, o := range tmp.Obs {
+			if o.Rule == "U-1" && strings.Contains(o.Key, "BeginBlock:candidates") {
+				o.Rule = "J-4"
+				o.Key = "J-4:" + strings.TrimPrefix(o.Key, "U-1:")
+				r.Obs = append(r.Obs, o)
+				n++
+			}
+		}
+		if n < 1 {
+			r.Undecided("J-4", "candidates", "the candidate-list rule (C10 U-1) produced no obligation")
+		}
+	}
 	r.Floor("J-1", 7, "evidence frame")
 	r.Floor("J-2", 7, "slashing arithmetic")
 	r.Floor("J-3", 5, "downtime")
